@@ -54,7 +54,9 @@ TECHNIQUE = ('Coq proofs about a Gallina program whose control flow is translate
 LEVEL_TEXT = ('Machine-checked, for inputs of any size (the core functions as REGENERATED from the source on this run, proved equal to the reference model): elements, query pairs and anchor round-trip through the reference decoder; '
               'every produced character after the application URL is allowed by RFC 3986 in its component; overrides are honoured '
               'with default ports elided and _app_url first; the *_path forms equal the *_url forms minus scheme://authority; '
-              'a URL is produced whenever route, placeholders and encodability allow (totality); an external route takes its scheme '
+              'a URL is produced whenever route, placeholders and encodability allow (totality, also for assets registered under a '
+              'splittable URL); the regenerated function forms *_path equal the function forms *_url minus scheme://authority; '
+              'an external route takes its scheme '
               'from _scheme, else the pattern, else the request.')
 LEVEL_NOTE = ('Trusted: Coq kernel; the translator\'s PRIMITIVE TABLE and mechanical statement rules (fail-closed: anything outside '
               'subset/table is a broken tie, never a guess; with **keywords the parameter names are part of the interface and are '
